@@ -342,6 +342,11 @@ func (ci *crdIpam) ConfigurePool(floatIPs []*FloatingIPPool) error {
 		glog.Infof("Configure pool done, %d fip pool, %d unallocated, %d allocated", len(ci.FloatingIPs),
 			len(ci.unallocatedFIPs), len(ci.allocatedFIPs))
 	}()
+	for i := range floatIPs {
+		if floatIPs[i] == nil {
+			return fmt.Errorf("invalid floatingip config, pool %d is empty", i)
+		}
+	}
 	sort.Sort(FloatingIPSlice(floatIPs))
 	ips, err := ci.listFloatingIPs()
 	if err != nil {
